@@ -16,7 +16,7 @@ def _bits(chk, key, labels):
 WF_LABELS = ["W1-unique-names", "W2-header-exiting-inside", "W3-leaves-only-from-exiting",
              "W4-targets-in-scope", "W5-region-targets-eq-exiting-targets", "W6-parent-is-container"]
 ST_LABELS = ["S1-acyclic-without-backedges", "S2-backedges-only-loop-latch-to-header",
-             "S3-branching-only-at-head-region-exits"]
+             "S3-branching-only-at-head-region-exits", "S4-every-cycle-takes-a-backedge"]
 
 
 def judge(prop, stage, chk):
